@@ -377,6 +377,12 @@ def run(tier, replay_file=None):
         for res in pool.imap_unordered(_worker, tasks, chunksize=1):
             if 'inconclusive' in res: incon.append(res['inconclusive']); continue
             chk.absorb(res)
+    # ---- part C: from the router's variables to the typed `Path<T>` value: string variables (single and wildcard lists) reach the handler
+    #      exactly as the router delivered them (from_map.rs from MIR, as in C09) - in particular never turned into '.', '..' or ''
+    from props import c09
+    n0 = len(chk.obligations)
+    c09.part_from_map(chk, ex)
+    chk.extra['from_map_obligations'] = len(chk.obligations) - n0
     if incon:
         rc = chk.finish('inconclusive run')
         if rc == 1:
